@@ -1525,7 +1525,7 @@ def m_box_error(ex, st, fr, path, args, m):
     return Opaque("BoxedError")
 
 
-@model(r"^<&?(?:mut )?(\w+) as (?:std::ops::)?(Add|Sub|Mul|Div|Rem|BitAnd|BitOr|BitXor|Shl|Shr)<&?(\w+)>>::(add|sub|mul|div|rem|bitand|bitor|bitxor|shl|shr)$")
+@model(r"^<&?(?:mut )?(\w+) as (?:std::ops::)?(Add|Sub|Mul|Div|Rem|BitAnd|BitOr|BitXor|Shl|Shr)(?:<&?(\w+)>)?>::(add|sub|mul|div|rem|bitand|bitor|bitxor|shl|shr)$")
 def m_prim_ops(ex, st, fr, path, args, m):
     """operator traits on primitives and references to them (dev profile: overflow panics)"""
     a, b = deref_val(args[0]), deref_val(args[1])
